@@ -765,7 +765,30 @@ ssize_t ZCK_PUBLIC_API zck_get_chunk_data(zckChunk *idx, char *dst,
         return -1;
     if(!seek_data(zck, zck_get_chunk_start(idx), SEEK_SET))
         return -1;
+    /* The chunk checksum starts afresh: an earlier request may have left it
+     * partially fed */
+    if(!hash_init(zck, &(zck->check_chunk_hash), &(zck->chunk_hash_type)))
+        return -1;
     zck->comp.data_idx = idx;
     /* The dictionary chunk itself is compressed without the dictionary */
-    return comp_read(zck, dst, dst_size, idx != dict);
+    ssize_t rb = comp_read(zck, dst, dst_size, idx != dict);
+    if(rb < 0)
+        return rb;
+
+    /* Without compression the data is handed out while it is being read, so a
+     * request for the whole chunk comes back before the end of the chunk has
+     * been reached and its checksum checked */
+    if(dst_size >= idx->length && zck->comp.data_idx == idx) {
+        if(zck->comp.data_loc != idx->comp_length ||
+           zck->comp.dc_data_size != zck->comp.dc_data_loc) {
+            set_error(zck, "Chunk %i is larger than its size in the index",
+                      idx->number);
+            return -1;
+        }
+        if(comp_end_dchunk(zck, idx != dict, idx->length) < 0)
+            return -1;
+        if(zck->comp.data_idx == NULL)
+            zck->comp.data_eof = true;
+    }
+    return rb;
 }
